@@ -72,3 +72,21 @@ CHECKS["C09"] = {
     "technique": "deterministic simulation of the sample-delivery channel (seeded reordering/batching/interleaving) with invariants after every delivery and a one-batch reference twin",
     "determinism_runs": 1500, "exec_timeout": 120, "batch_timeout": 600,
 }
+
+CHECKS["C14"] = {
+    "id": "C14", "engine": "misuse", "flavour": "asan", "binary": "build/asan/c14", "level": "exploration",
+    "tiers": {"quick": {"runs": 300000, "batch": 1500, "wall_cap": 420}, "thorough": {"runs": 6000000, "batch": 3000, "wall_cap": 2400}},
+    "rule": "one case = a seeded grid (or the empty object) + a seeded valid history (as in C06) in which documented misuses are injected at seeded positions on G only; "
+            "each misuse is drawn from the table of throws-clauses applicable in the current state (sizes, ranges, wrong family, empty grid, out-of-order calls, no-GPU calls, "
+            "unreadable / non-Tasmanian files through the simulated file system); distinct = distinct (sequence of (clause, family, state class), final state shape); non-trivial = at least one misuse issued",
+    "components": {"real": ["every public TasmanianSparseGrid method with a documented throws-clause", "readers of both formats", "libstdc++ iostreams"],
+                   "simulated": ["the misbehaving caller (misuse injected at an arbitrary point of a history)", "file system under /simfs/: ENOENT, EACCES, zero-length file, wrong header, unknown grid type, future version"]},
+    "expect_probes": ["reach.emptied_by_failed_make_or_read", "note.raised_documented_type"],
+    "assumptions": ["either of std::invalid_argument / std::runtime_error is accepted (the statement names the set); stored level limits are not part of the compared state (a failed call may store them; points, values and surrogate do not change)",
+                    "truncated or bit-flipped bodies of otherwise valid files are not injected (not in a throws-clause)"],
+    "level_text": "seeded exploration of histories with injected documented misuses and I/O faults, checked against an un-faulted twin: exception type, unchanged points/values/surrogate (or empty after failed make/read), "
+                  "continued usability, no crash or sanitizer report",
+    "level_note": "table-driven: covers the throws-clauses listed in engines/c14.cpp (about 85 clause variants), each in the states the seeded histories reach; a clean batch is evidence, not proof. Trusted: ASan/UBSan, the twin",
+    "technique": "deterministic simulation with fault injection where the fault is the documented misuse or the unreadable/non-Tasmanian file (simulated file system), injected into seeded histories and judged against an un-faulted twin",
+    "determinism_runs": 2000, "exec_timeout": 120, "batch_timeout": 600,
+}
